@@ -188,9 +188,9 @@ int main(int argc, char** argv) {
         depth = int(a.geti("depth", depth)); lenI = int(a.geti("lenI", lenI));
         struct MI { ref::SigVer sv; std::vector<bytes> init; };
         std::vector<MI> mis;
-        std::vector<bytes> small(Vs.begin(), Vs.begin() + 6);
+        std::vector<bytes> small(Vs.begin(), Vs.begin() + (tier == "quick" ? 4 : 6));
         for (auto sv : svs) for (auto& init : tuples(small, lenI)) mis.push_back(MI{sv, init});
-        plan.push_back("all symbol sequences of length 1.." + std::to_string(depth) + " from every initial stack over 6 small values of length 0.." + std::to_string(lenI) + " x 3 sigversions, each run under all 256 subsets of R; every cover edge of the subset lattice checked");
+        plan.push_back("all symbol sequences of length 1.." + std::to_string(depth) + " from every initial stack over " + std::to_string(small.size()) + " small values of length 0.." + std::to_string(lenI) + " x 3 sigversions, each run under all 256 subsets of R; every cover edge of the subset lattice checked");
         parallel_for(mis.size(), default_workers(), tmp, "c09",
             [&](size_t i, FILE* o) {
                 Violations v; long long p = 0, s = 0, se = 0;
